@@ -58,6 +58,17 @@ Definition has_func (E : env) (name : bytes) : bool :=
   e_bound E && ((match assoc name (e_ufuncs E) with Some _ => true | None => false end) || is_default_func name).
 Definition has_macro (E : env) (name : bytes) : bool :=
   e_bound E && (mem_bytes name compile_macros || (e_runtime E && mem_bytes name runtime_macros)).
+(** nesting of lists and maps: the longest chain of containers inside one another *)
+Fixpoint container_depth (v : value) : nat :=
+  match v with
+  | VList l => S ((fix go (l : list value) : nat := match l with [] => O | x :: r => Nat.max (container_depth x) (go r) end) l)
+  | VMap m => S ((fix go (m : list (bytes * value)) : nat :=
+                    match m with [] => O | (_, x) :: r => Nat.max (container_depth x) (go r) end) m)
+  | _ => O
+  end.
+Definition max_accumulator_nesting : nat := 1000.
+Definition nested_too_deep (v : value) : bool := Nat.ltb max_accumulator_nesting (container_depth v).
+
 (** the compiler is evaluating a constant sub-expression (the clock is withheld) *)
 Definition folding (E : env) : bool := match e_now E with None => true | Some _ => false end.
 Definition env_type (E : env) (name : bytes) : option value :=
@@ -238,11 +249,15 @@ Section Step.
         end
     end.
 
+  (** reduce refuses an accumulator nested more than 1000 levels deep (MAX_ACCUMULATOR_NESTING) *)
   Fixpoint reduce_loop (cur next : bytes) (body : code) (l : list value) (acc : value) : M value :=
     match l with
     | [] => mret acc
     | v :: l' => do r <- run_body (bind_param (bind_param E next v) cur acc) body;
-                 match r with inl e => mret e | inr a => reduce_loop cur next body l' a end
+                 match r with
+                 | inl e => mret e
+                 | inr a => if nested_too_deep a then mret (VErr EValue) else reduce_loop cur next body l' a
+                 end
     end.
 
   Fixpoint coalesce_loop (args : list code) : M value :=
